@@ -38,6 +38,10 @@ func TestValidity(t *testing.T) {
 		for _, u := range p.Units {
 			total[u.Family]++
 		}
+		if d := os.Getenv("EXOGEN_DUMP"); d != "" && len(errs) > 0 {
+			os.WriteFile(fmt.Sprintf("%s/bad-%d.go", d, i), []byte(p.Source(false)), 0o644)
+			os.WriteFile(fmt.Sprintf("%s/bad-%d_test.go", d, i), []byte(p.Source(true)), 0o644)
+		}
 		for ui, es := range errs {
 			fam := "outside"
 			if ui >= 0 {
@@ -82,5 +86,38 @@ func TestValidity(t *testing.T) {
 	}
 	if nt > 0 && float64(nb)/float64(nt) > 0.10 {
 		t.Errorf("too many invalid units: %d of %d", nb, nt)
+	}
+}
+
+// TestDump writes generated packages as a module under EXOGEN_OUT (development aid).
+func TestDump(t *testing.T) {
+	out := os.Getenv("EXOGEN_OUT")
+	if out == "" {
+		t.Skip("EXOGEN_OUT not set")
+	}
+	n := 20
+	if v := os.Getenv("EXOGEN_N"); v != "" {
+		n, _ = strconv.Atoi(v)
+	}
+	seed := 1
+	if v := os.Getenv("EXOGEN_SEED"); v != "" {
+		seed, _ = strconv.Atoi(v)
+	}
+	var fams []string
+	if v := os.Getenv("EXOGEN_FAMILIES"); v != "" {
+		fams = strings.Split(v, ",")
+	}
+	os.MkdirAll(out, 0o755)
+	os.WriteFile(out+"/go.mod", []byte("module example.com/m\n\ngo 1.26.0\n"), 0o644)
+	for i := 0; i < n; i++ {
+		p := rapid.Custom(func(rt *rapid.T) *Package {
+			return Generate(rt, "p", Config{Test: i%2 == 0, Families: fams, MinUnits: 10, MaxUnits: 30, Include: func(sig string) bool { return os.Getenv("EXOGEN_EXCLUDE") == "" }})
+		}).Example(seed*100000 + i)
+		d := fmt.Sprintf("%s/p%d", out, i)
+		os.MkdirAll(d, 0o755)
+		os.WriteFile(d+"/p.go", []byte(p.Source(false)), 0o644)
+		if s := p.Source(true); s != "" {
+			os.WriteFile(d+"/p_test.go", []byte(s), 0o644)
+		}
 	}
 }
